@@ -115,6 +115,164 @@ func nonNilAt(v ssa.Value, b *ssa.BasicBlock, facts []flow.Fact, pair bool) stri
 	return ""
 }
 
+// sameValue: a and b are the same SSA value or loads of the same field of the same base value.
+func sameValue(a, b ssa.Value) bool {
+	if a == b {
+		return true
+	}
+	ab, ap, ok := accessPath(a)
+	if !ok {
+		return false
+	}
+	bb, bp, ok2 := accessPath(b)
+	return ok2 && ab == bb && ap == bp
+}
+
+// storesField: h or a function it statically calls inside the engine (a few levels) assigns the named field of
+// some value of the struct type: then a fact about a field read before the call says nothing about a read after it.
+func storesField(h *ssa.Function, path string, inEngine func(*ssa.Function) bool, seen map[*ssa.Function]bool, depth int) bool {
+	if h == nil || seen[h] {
+		return false
+	}
+	seen[h] = true
+	if !inEngine(h) || depth > 4 {
+		return true // not visible: assume it may
+	}
+	found := false
+	for _, g := range ssau.WithAnon(h) {
+		ssau.Instrs(g, func(in ssa.Instruction) {
+			switch x := in.(type) {
+			case *ssa.Store:
+				if n, f, _, ok := ssau.FieldOf(x.Addr); ok && n != nil && n.Obj().Name()+"."+f == path {
+					found = true
+				}
+			case ssa.CallInstruction:
+				if x.Common().IsInvoke() {
+					return
+				}
+				if sc := x.Common().StaticCallee(); sc != nil && sc.Blocks != nil && inEngine(sc) {
+					if storesField(sc, path, inEngine, seen, depth+1) {
+						found = true
+					}
+				}
+			}
+		})
+	}
+	return found
+}
+
+// answerEvidence: evidence for v from what a helper that was handed v has answered.  A fact in facts says that a
+// result of a static in-engine call is true (a bool verdict: `if !wanted(src, cur) { return }`) or not nil (an
+// error: `if err := compileInto(src, &dst); err != nil { ... }`); v is an argument of that call (the same value, or a
+// load of the same field of the same base when the helper assigns no such field); and inside the helper every return
+// that can deliver such an answer lies where the corresponding parameter is known not to be nil.
+func answerEvidence(v ssa.Value, facts []flow.Fact, pair bool, inEngine func(*ssa.Function) bool, depth int) string {
+	if depth > 3 {
+		return ""
+	}
+	for _, f := range facts {
+		var res ssa.Value // the call result the fact is about
+		switch x := f.Cond.(type) {
+		case *ssa.Call, *ssa.Extract:
+			if bt, isB := x.Type().Underlying().(*types.Basic); !isB || bt.Kind() != types.Bool || !f.True {
+				continue
+			}
+			res = x
+		case *ssa.BinOp:
+			if x.Op != token.EQL && x.Op != token.NEQ {
+				continue
+			}
+			a, b := x.X, x.Y
+			if ssau.IsNilConst(a) {
+				a, b = b, a
+			}
+			if !ssau.IsNilConst(b) || (x.Op == token.NEQ) != f.True {
+				continue
+			}
+			res = a
+		default:
+			continue
+		}
+		var cl *ssa.Call
+		idx := 0
+		switch r := res.(type) {
+		case *ssa.Call:
+			cl = r
+		case *ssa.Extract:
+			cl, _ = r.Tuple.(*ssa.Call)
+			idx = r.Index
+		}
+		if cl == nil || cl.Common().IsInvoke() {
+			continue
+		}
+		h := cl.Common().StaticCallee()
+		if h == nil || h.Blocks == nil || !inEngine(h) {
+			continue
+		}
+		for ai, a := range cl.Common().Args {
+			if ai >= len(h.Params) || !sameValue(a, v) {
+				continue
+			}
+			if a != v {
+				_, path, _ := accessPath(v)
+				if storesField(h, path, inEngine, map[*ssa.Function]bool{}, 0) {
+					continue
+				}
+			}
+			if answerImpliesNonNil(h, idx, h.Params[ai], pair, inEngine, depth) {
+				return "answer of " + prog.FuncName(h) + " (it gives that answer only for a non-nil argument)"
+			}
+		}
+	}
+	return ""
+}
+
+// answerImpliesNonNil: every return of h whose result #idx can be true (a bool) or non-nil (anything else) lies
+// where the parameter p is known not to be nil.
+func answerImpliesNonNil(h *ssa.Function, idx int, p *ssa.Parameter, pair bool, inEngine func(*ssa.Function) bool, depth int) bool {
+	n := 0
+	var edges func(v ssa.Value, b *ssa.BasicBlock, facts []flow.Fact, d int) bool
+	edges = func(v ssa.Value, b *ssa.BasicBlock, facts []flow.Fact, d int) bool {
+		if phi, ok := v.(*ssa.Phi); ok && d < 6 {
+			for i, e := range phi.Edges {
+				pred := phi.Block().Preds[i]
+				if !edges(e, pred, flow.EdgeFacts(pred, phi.Block()), d+1) {
+					return false
+				}
+			}
+			return true
+		}
+		if c, ok := v.(*ssa.Const); ok {
+			if c.Value == nil || c.Value.String() == "false" {
+				return true // this way delivers false / nil: not the answer in question
+			}
+		}
+		n++
+		if bt, isB := v.Type().Underlying().(*types.Basic); isB && bt.Kind() == types.Bool {
+			if _, isC := v.(*ssa.Const); !isC {
+				facts = flow.Expand(append(append([]flow.Fact{}, facts...), flow.Fact{Cond: v, True: true}))
+			}
+		}
+		if nonNilAt(p, b, facts, pair) != "" {
+			return true
+		}
+		return answerEvidence(p, facts, pair, inEngine, depth+1) != ""
+	}
+	for _, b := range h.Blocks {
+		ret, ok := b.Instrs[len(b.Instrs)-1].(*ssa.Return)
+		if !ok {
+			continue
+		}
+		if idx >= len(ret.Results) {
+			return false
+		}
+		if !edges(ret.Results[idx], b, flow.FactsAt(b), 0) {
+			return false
+		}
+	}
+	return n > 0
+}
+
 func Check(cfg Config, sources []Source) *Result {
 	res := &Result{}
 	type vk struct {
@@ -170,6 +328,10 @@ func Check(cfg Config, sources []Source) *Result {
 						ev = e2 + " (of the value the variable was assigned)"
 					}
 				}
+			}
+			if ev == "" {
+				// the verdict (or the error) of a helper that was handed the value
+				ev = answerEvidence(v, facts, cfg.PairRule, inEngine, 0)
 			}
 			fault := func(kind string) {
 				if ev != "" {
@@ -275,7 +437,7 @@ func Check(cfg Config, sources []Source) *Result {
 						continue
 					}
 					pred := u.Block().Preds[i]
-					if nonNilAt(v, pred, flow.EdgeFacts(pred, u.Block()), cfg.PairRule) == "" {
+					if ef := flow.EdgeFacts(pred, u.Block()); nonNilAt(v, pred, ef, cfg.PairRule) == "" && answerEvidence(v, ef, cfg.PairRule, inEngine, 0) == "" {
 						push(u, it.src, it.chain, "phi "+u.Name()+" in "+prog.FuncName(u.Parent()))
 					}
 				}
